@@ -68,11 +68,11 @@ def gen(tier, rng):
             # ... also for a connection of its own bound to a local address
             cases.append(f"cstall\t{client}\t{t}\tl")
     # the stall is around the TLS layer: implicit TLS (w), required (r) or opportunistic (o) STARTTLS; no answer to the ClientHello (h), to
-    # STARTTLS (s), no greeting inside TLS (g), no answer to EHLO / MAIL / the end of data inside TLS (e, m, z); client `c` is
+    # STARTTLS (s), no greeting inside TLS (g), no answer to EHLO / AUTH / MAIL / the end of data inside TLS (e, a, m, z; `p a`: AUTH on a clear-text connection); client `c` is
     # a connection of its own whose timeout is configured after the set-up, with `set_timeout`
     for t in ts:
         for client in "sa":
-            for mode, ats in (("w", "hgemz"), ("r", "shemz"), ("o", "sh")):
+            for mode, ats in (("w", "hgeamz"), ("r", "sheamz"), ("o", "sh"), ("p", "a")):
                 for at in ats:
                     cases.append(f"tstall\t{client}\t{t}\t{mode}\t{at}")
         for mode in "wr":
